@@ -588,6 +588,26 @@ func (x *Explorer) observe(st *State, f *Frame, callee, site string, args, resul
 			if i < len(snaps) && snaps[i] != nil {
 				st.ghosts[fmt.Sprintf("%s.arg%dval", o.Name, i)] = VInt{T: snaps[i]}
 			}
+			// name.argKout: what the callee left in the object a pointer argument points to
+			var pp *VPtr
+			switch v := a.(type) {
+			case VPtr:
+				pp = &v
+			case VIface:
+				if dp, ok := v.Dyn.(VPtr); ok {
+					pp = &dp
+				}
+			}
+			if pp != nil && pp.Alloc == nil && pp.Ref != nil && len(pp.Path) == 0 && !(pp.Ref.IsLit() && pp.Ref.Int.Sign() == 0) {
+				if t := st.eng.pointee(*pp); t != nil {
+					if _, isIface := t.Underlying().(*types.Interface); !isIface {
+						func() {
+							defer func() { _ = recover() }()
+							st.ghosts[fmt.Sprintf("%s.arg%dout", o.Name, i)] = st.load(*pp)
+						}()
+					}
+				}
+			}
 		}
 		for i, r := range results {
 			st.ghosts[fmt.Sprintf("%s.res%d", o.Name, i)] = r
